@@ -26,8 +26,11 @@ type sw struct {
 }
 
 type attrM struct {
-	Name string `json:"name"`
-	Expr string `json:"expr"`
+	Name  string   `json:"name"`
+	Expr  string   `json:"expr"`
+	JList []string `json:"jlist,omitempty"`
+	JKeys []string `json:"jkeys,omitempty"`
+	JVals []string `json:"jvals,omitempty"`
 }
 type dynM struct {
 	ForEach  string   `json:"for_each"`
@@ -96,6 +99,7 @@ type caseM struct {
 	MapSalt     uint64          `json:"map_salt"`
 	ExpandCheck bool            `json:"expand_check"`
 	Pretouch    bool            `json:"pretouch"`
+	ConcFirst   bool            `json:"conc_first,omitempty"`
 	// replay-file extras (ignored by the worker)
 	Expect   *expectM `json:"expect,omitempty"`
 	History  *histM   `json:"process_history,omitempty"`
@@ -250,6 +254,98 @@ func (x *c17) build() {
 	x.raceDir = filepath.Join(e.scratch, "race")
 	os.MkdirAll(x.raceDir, 0o755)
 	x.buildS = time.Since(t0).Seconds()
+	x.mirrorSelfTest()
+}
+
+// mirrorSelfTest checks that the orchestrator's copy of the case types loses
+// nothing: a generated case must survive decode + encode unchanged.  (A field
+// added to the harness but not here would silently vanish from every replayed
+// and minimised case.)
+func (x *c17) mirrorSelfTest() {
+	for _, args := range [][]string{{"-gen", "12345", "-profile", "fault"}, {"-gen", "777", "-profile", "fault", "-deep"}} {
+		out, err := run(x.e.scratch, append(os.Environ(), "GOMAXPROCS=1"), x.worker, args...)
+		if err != nil {
+			trouble(x.e, "worker -gen failed: %v %s", err, out)
+		}
+		var c caseM
+		if err := json.Unmarshal([]byte(out), &c); err != nil {
+			trouble(x.e, "worker -gen output does not parse: %v", err)
+		}
+		re, _ := json.Marshal(&c)
+		var a, b any
+		da := json.NewDecoder(strings.NewReader(out))
+		da.UseNumber()
+		da.Decode(&a)
+		db := json.NewDecoder(bytes.NewReader(re))
+		db.UseNumber()
+		db.Decode(&b)
+		if !jsonEqual(a, b) {
+			trouble(x.e, "the orchestrator's case types are out of date: a generated case changes when decoded and re-encoded")
+		}
+	}
+}
+
+// jsonEqual compares decoded JSON, treating absent, null, false, 0, "" and
+// empty collections as equal (omitempty).
+func jsonEqual(a, b any) bool {
+	empty := func(v any) bool {
+		switch t := v.(type) {
+		case nil:
+			return true
+		case bool:
+			return !t
+		case string:
+			return t == ""
+		case json.Number:
+			return t.String() == "0"
+		case []any:
+			return len(t) == 0
+		case map[string]any:
+			for _, x := range t {
+				if !jsonEqual(x, nil) {
+					return false
+				}
+			}
+			return true
+		}
+		return false
+	}
+	if empty(a) && empty(b) {
+		return true
+	}
+	switch ta := a.(type) {
+	case map[string]any:
+		tb, ok := b.(map[string]any)
+		if !ok {
+			return false
+		}
+		for k, v := range ta {
+			if !jsonEqual(v, tb[k]) {
+				return false
+			}
+		}
+		for k, v := range tb {
+			if _, ok := ta[k]; !ok && !jsonEqual(nil, v) {
+				return false
+			}
+		}
+		return true
+	case []any:
+		tb, ok := b.([]any)
+		if !ok || len(ta) != len(tb) {
+			return false
+		}
+		for i := range ta {
+			if !jsonEqual(ta[i], tb[i]) {
+				return false
+			}
+		}
+		return true
+	case json.Number:
+		tb, ok := b.(json.Number)
+		return ok && ta.String() == tb.String()
+	}
+	return a == b
 }
 
 type procOut struct {
